@@ -43,6 +43,10 @@ pub struct CacheSpec {
     /// feeder source only: that many extra threads flood the event channel from just before the drop on
     #[serde(default)]
     flooders: u8,
+    /// in-memory source only: that many thousand assets are loaded, the cache is cleared and they are loaded
+    /// again (every asset is registered twice) right before the drop
+    #[serde(default)]
+    bulk: u8,
 }
 
 #[derive(Debug, Clone, Serialize, Deserialize)]
@@ -156,7 +160,7 @@ impl Prop for C15 {
     }
 
     fn rule(&self) -> String {
-        "cases = sequences over 1..4 caches with hot-reloading on an in-memory (custom) source, a custom source owning an event-producing thread (stopped by Disconnected from EventSender::send, joined by the source's destructor) or a real FileSystem source in a temp dir: create, load k assets, send events, call hot_reload, optionally let the source drop its EventSender, \
+        "cases = sequences over 1..4 caches with hot-reloading on an in-memory (custom) source, a custom source owning an event-producing thread (stopped by Disconnected from EventSender::send, joined by the source's destructor) or a real FileSystem source in a temp dir: create, load k assets (sometimes 10..24 thousand, cleared and loaded again, so that every one is registered twice), send events, call hot_reload, optionally let the source drop its EventSender, \
          then drop the cache while idle / right after hot_reload / with events still queued / right after loads; for filesystem caches optionally change files in the directory afterwards (an asset, or only a file that maps to no id). \
          Oracle from /proc/self/task (per-thread CPU ticks and states, never wall-clock latency): while the harness idles for 400 ms every live reloader thread accrues <= 2 ticks; during the 2 s after the drops each reloader thread of a dropped cache \
          has disappeared, or at least did not accrue >= 25 ticks while still running in the last 500 ms; after a change in a dropped filesystem cache's directory its watcher thread is gone too (thread count back to the baseline, polled for up to 10 s); dropping a cache on the feeder source finishes before the feeder got 3000 more events accepted (3 million when 2..4 extra threads flood the channel from just before the drop on). \
@@ -193,8 +197,9 @@ impl Prop for C15 {
             prop::bool::weighted(0.3),
             0u8..3,
             prop_oneof![1 => Just(0u8), 1 => 2u8..5],
+            prop_oneof![5 => Just(0u8), 1 => 10u8..25],
         )
-            .prop_map(|(kind, loads, events, hot_reloads, timing, drop_sender, after_drop, flooders)| CacheSpec { kind, loads, events, hot_reloads, timing, drop_sender, after_drop, flooders: if kind == SrcKind::Feeder { flooders } else { 0 } });
+            .prop_map(|(kind, loads, events, hot_reloads, timing, drop_sender, after_drop, flooders, bulk)| CacheSpec { kind, loads, events, hot_reloads, timing, drop_sender, after_drop, flooders: if kind == SrcKind::Feeder { flooders } else { 0 }, bulk: if kind == SrcKind::Mem { bulk } else { 0 } });
         prop::collection::vec(spec, 1..4).prop_map(|caches| to_case(&Case { caches })).boxed()
     }
 
@@ -319,7 +324,26 @@ impl Prop for C15 {
         let mut tricky = false;
         let mut feeder_used = false;
         let mut flooded = false;
-        for (l, tid, spec) in live {
+        for (mut l, tid, spec) in live {
+            if spec.bulk > 0 {
+                if let Live::Mem(cache, src) = &mut l {
+                    let n = spec.bulk as u32 * 1000;
+                    {
+                        let mut t = src.tree();
+                        for i in 0..n {
+                            t.put(&format!("bulk{i}"), "v", b"1".to_vec(), Variant::Buffer);
+                        }
+                    }
+                    for round in 0..2 {
+                        for i in 0..n {
+                            drop(cache.load::<Ver>(&format!("bulk{i}")));
+                        }
+                        if round == 0 {
+                            cache.clear();
+                        }
+                    }
+                }
+            }
             match spec.timing {
                 DropTiming::EventsQueued => {
                     tricky = true;
@@ -463,6 +487,9 @@ impl Prop for C15 {
         if flooded {
             out.label("drop-under-notification-flood");
         }
+        if c.caches.iter().any(|s| s.bulk > 0) {
+            out.label("thousands-of-assets-registered-twice");
+        }
         if fs_checked {
             out.label("fs-change-after-drop");
         }
@@ -470,6 +497,6 @@ impl Prop for C15 {
     }
 
     fn required_labels(&self) -> Vec<&'static str> {
-        vec!["drop-with-queued-events / right-after-hot_reload", "source-dropped-sender", "filesystem-cache", "source-with-feeder-thread", "drop-under-notification-flood"]
+        vec!["drop-with-queued-events / right-after-hot_reload", "source-dropped-sender", "filesystem-cache", "source-with-feeder-thread", "drop-under-notification-flood", "thousands-of-assets-registered-twice"]
     }
 }
